@@ -88,8 +88,11 @@ bool PathMatch::match(const std::string &pattern, const std::string &path, const
                 slash = true;
                 ++s;
             }
+            /* A following wildcard can start anywhere */
+            const char next = *s;
+            const bool wild = (next == '?' || next == '*');
             while (*t != '\0' && (slash || *t != '/')) {
-                if (*s == *t) {
+                if (wild || next == *t) {
                     /* Could stop here, but do greedy match and add
                      * backtrack instead */
                     b.emplace(s.getpos(), t.getpos());
